@@ -156,6 +156,14 @@ def run(ctx):
         if n <= 4:
             do(ctx, 'pmul_dense', [be, a, b])
         ctx.res.count('random_N%d' % n)
+    # LONG lists: more rows / terms / pairs than any block, chunk or vector width (255, 256, 257, 300, 1025 rows; 65 x 65 and 40 x 130 term pairs)
+    for (L1, L2) in ((65, 65), (40, 130), (257, 3), (2, 300)):
+        for be in backends:
+            n = rng.randint(2, 4)
+            do(ctx, 'batch_corr', [be, gen.rplist(rng, n, L1), gen.rplist(rng, n, L2)], nontrivial=('long', be, L1, L2))
+    for L in gen.LONG[:4]:
+        for be in backends:
+            do(ctx, 'chain_corr', [be, gen.rplist(rng, rng.randint(1, 4), L)], nontrivial=('longch', be, L))
     # LARGE registers: byte, word and cache-line boundaries of every packed or vectorised representation (8, 9, 16, 17, 33, 64, 65 qubits); model correspondence only
     for n in gen.BIG:
         for be in backends:
